@@ -1,0 +1,24 @@
+//go:build verif
+
+package internal
+
+// Machine-checked contracts for the gowp verifier (/verif). Comment-only; compiled only under the
+// build tag "verif"; declares nothing.
+
+// lexlt(a, b): a is strictly smaller than b in bytewise lexicographic order.
+//@ spec lexlt(a string, b string) bool = exists k int :: 0 <= k && k <= len(a) && k <= len(b) && (forall i int :: 0 <= i && i < k ==> at(a, i) == at(b, i)) && ((k == len(a) && k < len(b)) || (k < len(a) && k < len(b) && at(a, k) < at(b, k)))
+
+//@ func CompareLex props C17
+//@   ensures eq: (s1 == s2) ==> result == 0
+//@   ensures lt: lexlt(s1, s2) ==> result == -1
+//@   ensures gt: lexlt(s2, s1) ==> result == 1
+//@   modifies nothing
+
+//@ func IsMaxMemoryExceeded props C08
+//@   ensures result == (maxMemory != 0 && uint64(memUsed) >= maxMemory)
+//@   modifies nothing
+
+//@ func AbsInt props C16,C17
+//@   ensures n >= 0 ==> result == n
+//@   ensures n < 0 ==> result == -n
+//@   modifies nothing
